@@ -90,6 +90,12 @@ func (u *Unit) freshOf(st *State, t types.Type, hint string) Term {
 
 func (u *Unit) zeroOf(t types.Type) Term {
 	c := u.c
+	if _, isTP := t.(*types.TypeParam); isTP {
+		srt := c.sortOf(t)
+		name := "zero_" + sanitize(srt)
+		c.declareFun(name, "() "+srt)
+		return Term{S: name, T: t}
+	}
 	if bits, signed, ok := intInfo(t); ok {
 		return Term{S: c.constInt(big.NewInt(0), bits, signed), T: t, K: big.NewInt(0)}
 	}
@@ -105,6 +111,8 @@ func (u *Unit) zeroOf(t types.Type) Term {
 	case *types.Interface:
 		if isEmptyInterface(t) {
 			c.declareFun("any.nil", "() Any")
+			c.declareRaw("anyniltag", "(assert (= (any.tag any.nil) 0))")
+			c.declareRaw("anynilonly", "(assert (forall ((x Any)) (=> (= (any.tag x) 0) (= x any.nil))))")
 			return Term{S: "any.nil", T: t}
 		}
 		return Term{S: "0", T: t}
@@ -134,6 +142,9 @@ func (u *Unit) zeroOf(t types.Type) Term {
 func (u *Unit) rangeFacts(st *State, s string, t types.Type, depth int) string {
 	c := u.c
 	if t == nil || depth > 3 {
+		return "true"
+	}
+	if _, isTP := t.(*types.TypeParam); isTP {
 		return "true"
 	}
 	if bits, signed, ok := intInfo(t); ok {
